@@ -30,3 +30,6 @@ def run(ctx):
     base.run_twin(ctx, "reward_shift_scale", det)
     large = [TW.gen_c20_large(ctx.seed, i) for i in range(ctx.scale(10, 100))]
     base.run_twin(ctx, "row_permutation", large, shrink=False)
+    huge = [dict(TW.gen_huge(ctx.seed, i, ["radius", "lsh"], "C20", sizes=[(1100, 30, 65), (1500, 700, 65)]), perm_seed=i, tol=1e-9)
+            for i in range(ctx.scale(4, 40))]
+    base.run_twin(ctx, "row_permutation", huge, shrink=False)
